@@ -1108,7 +1108,7 @@ class Agent(dbus.service.Object):
 
         if ExtensionKey.SENDER_LISTEN in extmap:
             interval_ms = int(extmap[ExtensionKey.SENDER_LISTEN])
-            node_id = extmap.get(ExtensionKey.SENDER_NODEID, '')
+            node_id = str(extmap.get(ExtensionKey.SENDER_NODEID, ''))
             self.__logger.info('Sender Listen for %d ms from %s', interval_ms, node_id)
 
             data = cbor2.dumps({
